@@ -24,18 +24,20 @@ const bufSize = 2048
 
 // env is one fresh instance of the library: session + handlers on a recording connection.
 type env struct {
-	s     *packet.Session
-	conn  *lib.RecConn
-	dhcp  *dhcp4_spoofer.Handler
-	icmp6 *icmp_spoofer.Handler6
-	dns   *dns_naming.DNSHandler
-	lease string
-	pend  [][]byte // emitted frames not yet reported
-	arp   *arp_spoofer.Handler
-	cw    string  // caller-write class: the application overwrites every byte slice the library hands back ("" = none)
-	lazy  bool    // leave notifications queued in Session.C across packets (and scribbles)
-	slots []*slot // one per step, filled when the channel is drained
-	given int     // notifications already attributed to a slot
+	s        *packet.Session
+	conn     *lib.RecConn
+	dhcp     *dhcp4_spoofer.Handler
+	icmp6    *icmp_spoofer.Handler6
+	dns      *dns_naming.DNSHandler
+	lease    string
+	pend     [][]byte // emitted frames not yet reported
+	lateMode bool
+	late     []string // hm: frames of the decline/release goroutines, compared per history
+	arp      *arp_spoofer.Handler
+	cw       string  // caller-write class: the application overwrites every byte slice the library hands back ("" = none)
+	lazy     bool    // leave notifications queued in Session.C across packets (and scribbles)
+	slots    []*slot // one per step, filled when the channel is drained
+	given    int     // notifications already attributed to a slot
 }
 
 type slot struct {
@@ -411,6 +413,10 @@ func (e *env) outputsCat(async int, cat byte) (string, string) {
 			fs = append(fs, canonDHCP(f, false))
 			continue
 		case 'D':
+			if e.lateMode { // hm: decline/release goroutine frames are compared per history, not per step
+				e.late = append(e.late, canonDHCP(f, strings.HasPrefix(it, "D(7,")))
+				continue
+			}
 			ds = append(ds, it)
 			fs = append(fs, canonDHCP(f, strings.HasPrefix(it, "D(7,"))) // release: random xid
 			continue
